@@ -7,14 +7,30 @@ from sim.engine import Ledger
 from sim import gen as G
 
 
-def all_rules():
+def all_rules(props=None):
     from sim.rules_wire import WireRules
     from sim.rules_pub import PublishRules, RetxRules
     from sim.rules_sub import InboundRules, SubRequestRules
     from sim.rules_sess import SessionRules
     from sim.rules_conn import ConnectRules, GateRules, KeepaliveRules, HostileRules, ArgRules, QuietRules
-    return [WireRules(), PublishRules(), RetxRules(), InboundRules(), SubRequestRules(), SessionRules(),
-            ConnectRules(), GateRules(), KeepaliveRules(), HostileRules(), ArgRules(), QuietRules()]
+    table = [
+        (WireRules, {"C02", "C18", "C17", "C13", "C05", "C07"}),
+        (PublishRules, {"C05", "C09", "C10", "C13", "C11"}),
+        (RetxRules, {"C08", "C13", "C12"}),
+        (InboundRules, {"C06"}),
+        (SubRequestRules, {"C07"}),
+        (SessionRules, {"C11", "C12", "C04"}),
+        (ConnectRules, {"C04", "C05", "C07", "C11", "C12"}),
+        (GateRules, {"C14", "C04"}),
+        (KeepaliveRules, {"C15"}),
+        (HostileRules, {"C16"}),
+        (ArgRules, {"C20", "C02"}),
+        (QuietRules, {"C13"}),
+    ]
+    if props is None:
+        return [cls() for cls, _ in table]
+    want = set(props)
+    return [cls() for cls, ps in table if ps & want]
 
 
 class Result(object):
@@ -34,7 +50,7 @@ MAX_DISPATCH = 50000
 
 def _exec(ns, cfg, steps_iter, props, record, want_drain=True):
     w = World(ns, cfg)
-    L = Ledger(w, all_rules(), props)
+    L = Ledger(w, all_rules(props), props)
     w.observer = L.observe
     for st in steps_iter(w, L):
         if st is None:
